@@ -8,6 +8,7 @@ using namespace rtosc;
 AutomationMgr::AutomationMgr(int slots, int per_slot, int control_points)
     :nslots(slots), per_slot(per_slot), active_slot(0), learn_queue_len(0), p(NULL), damaged(0)
 {
+    NRPN.parhi = NRPN.parlo = NRPN.valhi = NRPN.vallo = -1;
     this->slots = new AutomationSlot[slots];
     memset(this->slots, 0, sizeof(AutomationSlot)*slots);
     for(int i=0; i<slots; ++i) {
